@@ -1009,11 +1009,15 @@ func (x *Exec) opaqueApply(env *SpecEnv, fn *SpecFn, args []ast.Expr) Val {
 		}
 		call += ")"
 		x.sc.emit("(declare-fun " + name + " (" + sig + ") " + string(scalarSort(rt)) + ")")
+		if fn.Abstract {
+			goto declared
+		}
 		x.sc.noDef++
 		body := x.flatten(x.evalExpr(inner, fn.expr()))[0]
 		x.sc.noDef--
 		x.sc.emit("(assert (forall (" + decl + ") (! (= " + call + " " + body.S + ") :pattern (" + call + "))))")
 	}
+declared:
 	var ts []*Term
 	for i, a := range args {
 		v := x.coerceTo(x.evalExpr(env, a), ptypes[i])
